@@ -271,6 +271,9 @@ def dry_runs():
             yield 'P1_parity', dict(k1=1, k2=2, d1=1, end=end, W=W, early=0, tmode=0, listed=False)
 
 
+PROBES = ['expect_core']      # representation probes (harness/probes.py) this harness depends on
+
+
 MANIFEST_ENTRY = {
     'level_text': 'Bounded symbolic verification of the real expect_async/PatternWaiter against the real blocking '
                   'expect path on a twin object: stream cut into <=3 chunks at symbolic positions, chunks delivered before '
